@@ -21,7 +21,7 @@ func init() {
 			"With a separate load (CanProcess) and add (StartProcessing), N concurrent requests can all pass the test before any of them increments, so more than the maximum run at once. " +
 			"(S2 pairing) every StartProcessing (directly, or through a wrapper that starts on its success path) is followed by exactly one EndProcessing on every path - counting deferred calls and the body of the " +
 			"goroutine the work is handed to - and EndProcessing is never reached without a preceding start: a missing end leaks a slot forever, a second end lets one more task in than allowed. " +
-			"Sites are enumerated from the SSA of the loaded packages (whole module in the thorough tier). Not decided: that the configured maximum is the intended one.",
+			"Sites are enumerated from the SSA of the loaded packages (whole module in the thorough tier). A goroutine started after StartProcessing ends the processing itself exactly once (the slot is held while the work runs); NumGoRoutinesThrottler.StartProcessing/EndProcessing change the counter on every return. Not decided: that the configured maximum is the intended one.",
 		Run: runC43,
 	})
 }
@@ -242,6 +242,64 @@ func runC43(c *core.Ctx) {
 		c.Check(okMax, "C43/start-end-paired", name+"/at-most-once", s.start.Pos(), "no path ends the processing twice", "a path calls EndProcessing more than once for one start: the counter drops below the number of running tasks")
 	}
 	c.Floor("C43/start-end-paired", 14)
+	// the slot is held while the work runs: work handed to a goroutine after the start must end the
+	// processing itself (exactly once); an EndProcessing in the spawner (deferred or not) releases
+	// the slot while the task is still running
+	nGo := 0
+	for i, s := range sites {
+		if wrappers[s.fn] && !s.wrap {
+			continue
+		}
+		k := 0
+		core.Instrs(s.fn, func(in ssa.Instruction) {
+			g, isGo := in.(*ssa.Go)
+			if !isGo {
+				return
+			}
+			// reachable after the start?
+			esc, _ := core.PathQ{Fn: s.fn, From: s.start, Target: func(x ssa.Instruction, _ *ssa.BasicBlock) bool { return x == ssa.Instruction(g) }}.Escape()
+			if esc == nil {
+				return
+			}
+			k++
+			nGo++
+			c.Check(isEnd(g) == 1, "C43/spawned-work-holds-the-slot", fmt.Sprintf("%s#%d/go#%d", fname(s.fn), i, k), g.Pos(),
+				"the goroutine started after StartProcessing ends the processing itself, exactly once",
+				"work is handed to a goroutine that does not end the processing itself: the spawner's EndProcessing (deferred or on its own return) frees the slot while the task is still running, so more than max tasks run concurrently")
+		})
+	}
+	c.Note("goroutines started after a StartProcessing: %d", nGo)
+	// every StartProcessing is counted and every EndProcessing uncounts: a start that may skip the
+	// increment paired with an end that always decrements lets the counter drift below the number of running tasks
+	for _, mname := range []string{"StartProcessing", "EndProcessing"} {
+		fn := anchorM(c, "core/throttler", "NumGoRoutinesThrottler", mname)
+		if fn == nil {
+			continue
+		}
+		c.Analysed(fname(fn))
+		isAdd := func(in ssa.Instruction) bool {
+			cc := core.CallOf(in)
+			if cc == nil || cc.StaticCallee() == nil || cc.StaticCallee().Pkg == nil || cc.StaticCallee().Pkg.Pkg.Path() != "sync/atomic" {
+				return false
+			}
+			return strings.HasPrefix(cc.StaticCallee().Name(), "Add")
+		}
+		casEdge := func(b *ssa.BasicBlock, succ int) bool {
+			ifi, ok := b.Instrs[len(b.Instrs)-1].(*ssa.If)
+			if !ok {
+				return false
+			}
+			call, ok := ifi.Cond.(*ssa.Call)
+			if !ok || call.Call.StaticCallee() == nil || !strings.HasPrefix(call.Call.StaticCallee().Name(), "CompareAndSwap") {
+				return false
+			}
+			return succ == 0
+		}
+		esc, path := core.PathQ{Fn: fn, Via: isAdd, ViaEdge: casEdge, Target: core.AnyReturn}.Escape()
+		c.Check(esc == nil, "C43/counter-atomic", "NumGoRoutinesThrottler."+mname+"/always-counts", fn.Pos(),
+			"every return has changed the counter by one (atomic add or successful compare-and-swap)",
+			mname+" can return without changing the counter ("+c.P.PathString(path)+"): starts and ends no longer cancel out, the counter drifts away from the number of running tasks and admission goes wrong")
+	}
 	// the counter itself: every access is a single atomic read-modify-write or load (a load followed by a store loses concurrent updates)
 	cnt := c.P.Field("core/throttler", "NumGoRoutinesThrottler", "counter")
 	if cnt == nil {
@@ -270,7 +328,7 @@ func runC43(c *core.Ctx) {
 			}
 		})
 	}
-	c.Floor("C43/counter-atomic", 3)
+	c.Floor("C43/counter-atomic", 5)
 }
 
 // sameMutexAcross: a mutex is write-held at the start call and was acquired before the dominating CanProcess call.
